@@ -22,6 +22,7 @@ func usage() {
   vsim replay <file>
   vsim run <scenario> --seed N [--trace N] [--param k=v]...   (debug: one run, prints the record)
   vsim selftest determinism [<Cxx>...] [--seeds N]
+  vsim selftest simnet
   vsim build <Cxx>`)
 	os.Exit(2)
 }
